@@ -305,7 +305,7 @@ void mythv_idle(int id, int rank) {
       park(tl_w);
       if (S.mode == MODE_CTL) S.st[tl_w] = ST_RUN;
     } else {
-      sched_yield();
+      syscall(SYS_sched_yield);
     }
     return;
   }
@@ -493,7 +493,7 @@ void mv_start(int nworkers) {
   __atomic_store_n(&S.begin_req, 1, __ATOMIC_RELEASE);
   for (int v = 0; v < nworkers; v++) {
     if (v == tl_w) continue;
-    while (!__atomic_load_n(&S.parked[v], __ATOMIC_ACQUIRE)) sched_yield();
+    while (!__atomic_load_n(&S.parked[v], __ATOMIC_ACQUIRE)) syscall(SYS_sched_yield);
   }
   for (int v = 0; v < nworkers; v++) {
     int loc, oth;
